@@ -36,6 +36,28 @@ func c08Uleb(v uint64) []byte {
 	}
 }
 
+// c08Chunked: header, then chunks of k payload bytes each ("more follow"), ended by an empty final chunk, to about n bytes.
+func c08Chunked(header []byte, n, k int, fill byte) []byte {
+	d := append([]byte{0x81, 0}, header...)
+	hdr := c08Uleb(uint64(k)<<1 | 1)
+	for len(d) < n {
+		d = append(d, hdr...)
+		d = append(d, bytes.Repeat([]byte{fill}, k)...)
+	}
+	return append(d, 0x00)
+}
+
+// c08ChunkedElems: the same for typed arrays whose chunk header counts elements (elems per chunk, bytesPerChunk payload bytes).
+func c08ChunkedElems(header []byte, n, elems, bytesPerChunk int) []byte {
+	d := append([]byte{0x81, 0}, header...)
+	hdr := c08Uleb(uint64(elems)<<1 | 1)
+	for len(d) < n {
+		d = append(d, hdr...)
+		d = append(d, bytes.Repeat([]byte{0x55}, bytesPerChunk)...)
+	}
+	return append(d, 0x00)
+}
+
 var c08Families = []c08Family{
 	{"cbe-many-small-ints", false, func(n int) []byte {
 		d := []byte{0x81, 0, 0x9a}
@@ -83,6 +105,15 @@ var c08Families = []c08Family{
 		}
 		return append(d, 0x00)
 	}, 0},
+	// one array in very many chunks, per array kind that has its own chunk handling in the validator and the builders
+	// (sizes from 64 KiB: a quadratic per-chunk cost then needs >= 20 ms at the smallest size and becomes visible to the CPU oracle)
+	{"cbe-string-many-1-byte-chunks", false, func(n int) []byte { return c08Chunked([]byte{0x90}, n, 1, 'a') }, 65536},
+	{"cbe-string-many-32-byte-chunks", false, func(n int) []byte { return c08Chunked([]byte{0x90}, n, 32, 'a') }, 65536},
+	{"cbe-rid-many-chunks", false, func(n int) []byte { return c08Chunked([]byte{0x91}, n, 3, 'a') }, 65536},
+	{"cbe-custom-binary-many-chunks", false, func(n int) []byte { return c08Chunked([]byte{0x92, 0x01}, n, 2, 0xaa) }, 65536},
+	{"cbe-media-many-chunks", false, func(n int) []byte { return c08Chunked([]byte{0x7f, 0xf3, 0x03, 'a', '/', 'b'}, n, 2, 0xaa) }, 65536},
+	{"cbe-u16-array-many-chunks", false, func(n int) []byte { return c08ChunkedElems([]byte{0x7f, 0xe1}, n, 2, 2) }, 65536},
+	{"cbe-bit-array-many-chunks", false, func(n int) []byte { return c08ChunkedElems([]byte{0x94}, n, 8, 1) }, 65536},
 	{"cbe-many-markers", false, func(n int) []byte {
 		d := []byte{0x81, 0, 0x9a}
 		for i := 0; len(d) < n; i++ {
